@@ -296,5 +296,37 @@ def main(argv):
     args = ap.parse_args(argv)
     seed = int(os.environ.get("VERIF_SEED", "0") or 0)
     sys.path.insert(0, VERIF)
+    if args.explain:
+        return explain(args.property, args.explain, repo=args.repo)
     rc = run_property(args.property, tier=args.tier, seed=seed, no_cache=args.no_cache, repo=args.repo)
     return rc
+
+
+def explain(prop, replay_path, repo=None, out=sys.stdout):
+    """re-evaluate the property on the current tree and report whether the violation in the replay file still fires"""
+    try:
+        with open(replay_path) as fh:
+            rp = json.load(fh)
+    except Exception as e:
+        print("cannot read replay file %s: %s" % (replay_path, e), file=out)
+        return 2
+    try:
+        facts_dir, digest, fresh, _ = ex.extract(repo or ex.REPO)
+        F = fx.load(facts_dir)
+    except ex.Broken as e:
+        print("CHECK-BROKEN: %s" % e, file=out)
+        return 2
+    ctx = Ctx(prop, F, gx.Graph(F), "quick", 0, digest, fresh)
+    importlib.import_module("rules." + prop).run(ctx)
+    hits = [o for r in ctx.rules for o in r.obligations if vkey(prop, o) == rp.get("key")]
+    print("replay key : %s" % rp.get("key"), file=out)
+    print("recorded   : %s @ %s" % (rp.get("message"), rp.get("where")), file=out)
+    if not hits:
+        print("now        : this rule instance does not exist on the current tree (facts %s)" % digest, file=out)
+        return 0
+    for o in hits:
+        print("now        : %s — %s @ %s" % ("VIOLATED" if not o["ok"] else "discharged", o["msg"], o["where"]), file=out)
+    if any(not o["ok"] for o in hits):
+        print("VIOLATION property=%s replay=%s" % (prop, replay_path), file=out)
+        return 1
+    return 0
